@@ -1004,6 +1004,32 @@ theorem C12_callback_under_lock_rejected :
     cbOutsideLocks ⟨t!"Server.handleServerNotification", t!"handler", t!"ServerNotificationHandler", .w, true⟩ = false ∧
     cbOutsideLocks ⟨t!"Server.handleServerNotification", t!"handler", t!"ServerNotificationHandler", .none, false⟩ = false := by decide
 
+/-- **No lock is left held.** Over the regenerated table of every way out of every function that takes a registry
+    lock (may-analysis per path: taken on some path to the exit and not released on it, unless an unlock is deferred on
+    every path): each `Lock` / `RLock` is matched by its unlock before every return. So no request — well-formed or
+    malformed, answered with a result or with an error — can wedge a registry for the registrations that follow. -/
+theorem C12_no_lock_leaked : ∀ e ∈ Mcp.Gen.registryLockExits, exitReleases e = true := by
+  have h : (Mcp.Gen.registryLockExits.all fun e => exitReleases e) = true := by decide +kernel
+  exact fun e he => List.all_eq_true.1 h e he
+
+/-- The exit table is not vacuous: mutators, readers and the three request paths are in it, and the tool request path
+    with its several early returns (missing / malformed parameters, unknown tool, bad arguments) has at least five. -/
+theorem C12_lock_exits_present :
+    (∀ n ∈ expectedLockers, (Mcp.Gen.registryLockExits.any fun e => e.fn == n) = true) ∧
+    5 ≤ (Mcp.Gen.registryLockExits.filter fun e => e.fn == t!"toolManager.handleCallTool").length := by
+  have h : (expectedLockers.all fun n => Mcp.Gen.registryLockExits.any fun e => e.fn == n) = true := by decide +kernel
+  have h2 : (decide (5 ≤ (Mcp.Gen.registryLockExits.filter fun e => e.fn == t!"toolManager.handleCallTool").length)) = true := by
+    decide +kernel
+  exact ⟨fun n hn => List.all_eq_true.1 h n hn, of_decide_eq_true h2⟩
+
+/-- The bad region: an early return that keeps the read lock (the records of seeded change C12-10) is rejected, and so
+    are a kept write lock and a function the extractor could not follow. -/
+theorem C12_leaked_lock_rejected :
+    (c1210Table.all fun e => exitReleases e) = false ∧
+    (c1210Table.filter fun e => !exitReleases e) = [⟨t!"toolManager.handleCallTool", 5, .r, true⟩] ∧
+    exitReleases ⟨t!"toolManager.registerTool", 1, .w, true⟩ = false ∧
+    exitReleases ⟨t!"toolManager.registerTool", 1, .none, false⟩ = false := by decide
+
 /-! ## non-vacuity -/
 
 /-- register a, register b, re-register a (new version, same position), list, unregister a, call a, call b,
